@@ -413,7 +413,7 @@ class Element(ABC):
             substitute=substitute,
             identifier=identifier,
             values=values,
-        ).subs(substitutions)
+        ).subs(substitutions, simultaneous=True)
 
     def to_latex(self) -> str:
         """
@@ -1803,7 +1803,7 @@ class Container(Element):
             identifiers=identifiers,
             values=values,
             subcircuits=subcircuits,
-        ).subs(substitutions)
+        ).subs(substitutions, simultaneous=True)
 
     def generate_element_identifiers(self, running: bool) -> Dict[Element, int]:
         """
